@@ -1174,7 +1174,7 @@ pub fn finish(ctx: &Ctx) -> i32 {
     crate::engine::finish(
         ctx,
         Finish {
-            rule: "modules generated inside the stated subset: header (id bound accurate, stale or zero), 1-3 capabilities, one memory model; declared-before-use void/bool/int/float, vector, matrix, pointer, array (length = earlier 32-bit constant), struct and function types; 32-bit OpConstant, bool/null constants and OpConstantComposite; 1-3 functions of 1-3 blocks with phis (at the start of the block or anywhere before the terminator; sources unknown to the lifter or results defined later in the same function), result-producing instructions drawn from the pinned list of opcodes the lifter handles (golden/lift_subset.json, every one of them x4 in the sweep) and non-switch terminators. Oracle: convert is Ok; version word, capabilities in order and memory model preserved; the Debug rendering of types / constants / ops / function blocks is read by a small Debug-syntax reader: one entry per declaration / per result-producing non-phi block instruction, in order, entry head = the opcode's name, value atoms positionally equal to the DR operands (an id may appear as the raw word or as Token(k) with k the index of the referenced type / constant declaration); control mask, result type token, block count, each block's terminator and phi result types as block arguments. non-trivial = module with >= 4 types, a composite, a function with >= 2 blocks, a phi and >= 4 lifted operations (sweep: every case); distinct = hash of the rendered module.",
+            rule: "modules generated inside the stated subset: header (id bound accurate, stale or zero), 1-3 capabilities, one memory model; declared-before-use void/bool/int/float, vector, matrix, pointer, array (length = earlier 32-bit constant), struct and function types; 32-bit OpConstant, bool/null constants and OpConstantComposite; 1-3 functions of 1-3 blocks with phis (at the start of the block or anywhere before the terminator; sources unknown to the lifter or results defined later in the same function), result-producing instructions drawn from the pinned list of opcodes the lifter handles (golden/lift_subset.json, every one of them x4 in the sweep) and non-switch terminators. Oracle: convert is Ok; version word, capabilities in order and memory model preserved; the Debug rendering of types / constants / ops / function blocks is read by a small Debug-syntax reader: one entry per declaration / per result-producing non-phi block instruction, in order, entry head = the opcode's name, value atoms positionally equal to the DR operands (an id may appear as the raw word or as Token(k) with k the index of the referenced type / constant declaration); control mask, result type token, block count, each block's terminator and phi result types as block arguments. non-trivial = module with >= 4 types, a composite, a function with >= 2 blocks, a phi and >= 4 lifted operations (sweep: every case); distinct = hash of the rendered module. Added in rounds 18-19: spread-ids (ids across powers of two and ten) and type chains 254-1000 constructors deep.",
             assumptions: vec!["the structured representation is documented as under development: the supported subset is pinned (opcodes and id-operand roles) from the pinned tree; an opcode leaving the subset is a failure of the sweep".into()],
             trusted_base: vec!["Debug-syntax reader".into(), "golden/lift_subset.json".into()],
         },
